@@ -95,4 +95,23 @@ func memberB(chars string, c byte) bool { return indexB(chars, c) >= 0 }
 //@   ensures hit:   k >= 0 ==> memberB(chars, s[k])
 //@   ensures first: forall j in (0, len(s)) :: (k < 0 || j < k) ==> !memberB(chars, s[j])
 
+//@ extern func strings.TrimSuffix(s string, suffix string) (r string)
+//@   pure
+//@   ensures hit:  hasSuffix(s, suffix) ==> r == s[:len(s)-len(suffix)]
+//@   ensures miss: !hasSuffix(s, suffix) ==> r == s
+//@ extern func strings.CutPrefix(s string, prefix string) (after string, found bool)
+//@   pure
+//@   ensures found: found == hasPrefix(s, prefix)
+//@   ensures hit:   hasPrefix(s, prefix) ==> after == s[len(prefix):]
+//@   ensures miss:  !hasPrefix(s, prefix) ==> after == s
+//@ extern func strings.CutSuffix(s string, suffix string) (before string, found bool)
+//@   pure
+//@   ensures found: found == hasSuffix(s, suffix)
+//@   ensures hit:   hasSuffix(s, suffix) ==> before == s[:len(s)-len(suffix)]
+//@   ensures miss:  !hasSuffix(s, suffix) ==> before == s
+// strings.IndexRune for an ASCII rune.
+//@ extern func strings.IndexRune(s string, r rune) (k int)
+//@   pure
+//@   ensures ascii: 0 <= r && r < 128 ==> k == indexB(s, byte(r))
+
 var _ = strings.IndexByte
